@@ -687,6 +687,8 @@ def run(ctx):
             p = subprocess.run([drv], input=json.dumps(case) + "\n", capture_output=True, text=True, timeout=timeout,
                                env=dict(os.environ, C13_SCRATCH=scr, **env))
             rs = [json.loads(l[6:]) for l in p.stdout.split("\n") if l.startswith("@@C13 ")]
+            if rs:
+                rs[0]["too_large_logged"] = sum(1 for l in p.stdout.split("\n") if l.startswith("Event data too large"))
             return p.returncode, (rs[0] if rs else None), p.stderr[-300:]
         except subprocess.TimeoutExpired:
             return 124, None, "timeout after %ds" % timeout
@@ -711,7 +713,7 @@ def run(ctx):
     # files the real event logger wrote from escape-dense messages cut at ITS OWN limit (regenerated MAXM)
     ctx.log("telemetry reader leg")
     units = ["'", '"', "&", "<", ">", "a", "&'é", "%27'", "<&>\"'", "日本'"]
-    tel_case = {"id": 0, "op": "telrun", "units": units, "mult": 4, "bound_ms": 90000}
+    tel_case = {"id": 0, "op": "telrun", "units": units, "mult": 4, "bound_ms": 90000, "oversize": True}
     rc, tr, err = run_child(tel_case, {"C13_THREADS": "0"}, 400)
     total += 1
     tel_desc = {"op": "telrun", "units": units, "message_length": "4 x MAX_MESSAGE_LENGTH (cut by write_event)", "runtime": "current_thread"}
@@ -728,6 +730,24 @@ def run(ctx):
                 n_panics += 1
             failures.append({"case": tel_desc, "why": "the telemetry reader did not get through the event files (files left %d, POSTs %d, reader ended %s, panics %s)" % (
                 tr["files_left"], tr["posts"], tr["reader_ended"], [p["loc"] for p in tr["panics"]][:2]), "impl": tr, "site": None, "panics": tr["panics"]})
+        if not tr.get("hung") and tr.get("file_sizes") is not None:
+            # the model (Model/BatchLoop.v, instance over_sizes): POSTs and dropped events per file, from the
+            # event sizes the real renderer reported; C13_batch_loop_terminates says it is never out of fuel
+            LIM = ints["max_message_size"]
+            bexprs = ["summary %s %s %s" % (cN(LIM), cN(tr["envelope"]), clist([cN(x) for x in f], "N")) for f in tr["file_sizes"]]
+            bm = vplib.coq_eval(ctx, "From GPA Require Import BatchLoop.\nFrom Coq Require Import List NArith.\nImport ListNotations.", bexprs, shard=50, name="batch")
+            m_posts = m_drops = 0
+            for f, r0 in zip(tr["file_sizes"], bm):
+                if r0 is None:
+                    disagreements.append({"case": {"op": "telrun.model", "sizes": f}, "model": "out of fuel", "impl": None})
+                    continue
+                m_posts += r0[1][0]
+                m_drops += r0[1][1]
+            if (m_posts, m_drops) != (tr["posts"], tr["too_large_logged"]):
+                disagreements.append({"case": dict(tel_desc, file_sizes=tr["file_sizes"], envelope=tr["envelope"], limit=LIM),
+                                      "model": {"posts": m_posts, "dropped": m_drops}, "impl": {"posts": tr["posts"], "dropped": tr["too_large_logged"]}})
+            dist["telemetry_batches"] = {"files": len(tr["file_sizes"]), "events": sum(len(f) for f in tr["file_sizes"]), "model_posts": m_posts, "model_dropped": m_drops,
+                                         "impl_posts": tr["posts"], "impl_dropped": tr["too_large_logged"]}
         dist["telemetry_reader"] = {k: tr.get(k) for k in ("events_written", "longest_queued", "files_before", "posts", "heartbeats", "elapsed_ms")}
 
     # ================= the real listener (shared end-to-end runner) =================
